@@ -312,13 +312,41 @@ def r74(ctx) -> None:
                         f'or 8-bit bytes reach LIST/STATUS output inside a '
                         f'quoted string')
     b64 = m.funcs.get('_modified_b64encode')
-    ok = b64 is not None and any(
-        call_name(c) == 'encode' and c.args
-        and const_value(c.args[0]) == (True, 'utf-7')
-        for c in calls_in(b64.node))
-    R.check(ok, b64, getattr(b64, 'node', None),
-            '_modified_b64encode is UTF-7 base64 (ASCII output)',
-            '_modified_b64encode does not go through the utf-7 codec')
+    if b64 is None:
+        raise AnchorError('modutf7._modified_b64encode vanished')
+    key = '_modified_b64encode yields base64 digits only (0x20-0x7e)'
+    via7 = [c for c in calls_in(b64.node, 'encode') if c.args and str(
+        const_value(c.args[0])[1]).lower().replace('_', '-') in ('utf-7',
+                                                                 'utf7')]
+    if via7:
+        R.fail(b64, via7[0], key,
+               f'`{txt(via7[0])}`: the utf-7 codec writes TAB, CR and LF '
+               f'directly; the caller passes it every run outside '
+               f'0x20-0x7e, so a mailbox named "x<CR><LF><TAB>y" is spelled '
+               f'b"x&<LF>-y" — a raw LF inside the name that LIST/STATUS '
+               f'write')
+    else:
+        rets = [r for r in walk_local(b64.node) if isinstance(r, ast.Return)]
+        ok = bool(rets)
+        for r in rets:
+            good = False
+            for v in resolve_local(b64, r.value):
+                # peel constant-argument bytes methods
+                while isinstance(v, ast.Call) and isinstance(
+                        v.func, ast.Attribute) and v.func.attr in (
+                            'replace', 'strip', 'rstrip', 'lstrip') and all(
+                            const_value(a)[0] for a in v.args):
+                    nxt = resolve_local(b64, v.func.value)
+                    v = nxt[0] if len(nxt) == 1 else v.func.value
+                if isinstance(v, ast.Call) and call_name(v) in (
+                        'b2a_base64', 'b64encode', 'standard_b64encode'):
+                    good = call_name(v) != 'b2a_base64' or const_value(
+                        kwarg(v, 'newline')) == (True, False)
+            ok = ok and good
+        R.check(ok, b64, b64.node, key,
+                'a returned value is not the output of a base64 encoder '
+                '(without its trailing newline) passed through constant '
+                'replace/strip calls only', 'base64 encoder output')
 
 
 def _response_classes(ctx):
